@@ -1,7 +1,7 @@
-import Driver.Proto
+import Driver.CpuUtil
 namespace Driver
 
-/-- C06 correspondence (stub) -/
-def checkC06 (l : Line) : Verdict := .bad s!"stream {l.stream} not implemented"
+/-- C06: control flow, length and timing, one instruction per line -/
+def checkC06 (l : Line) : Verdict := checkCpu l
 
 end Driver
